@@ -6,8 +6,10 @@ import importlib.util
 import inspect
 import math
 import operator
+import os
 import socket
 import sys
+import threading
 import warnings
 from pathlib import Path
 from typing import TYPE_CHECKING, Any, TypeGuard
@@ -42,8 +44,12 @@ def load(path: Path, *, cache: bool = False) -> Any:
 def dump(obj: Any, path: Path) -> None:
     """Dump an object to a path using cloudpickle."""
     path.parent.mkdir(parents=True, exist_ok=True)
-    with path.open("wb") as f:
+    # Write to a temporary file first, such that an interrupted dump never leaves
+    # a partially written file at `path`.
+    tmp_path = path.with_name(f"{path.name}.{os.getpid()}-{threading.get_ident()}.tmp")
+    with tmp_path.open("wb") as f:
         cloudpickle.dump(obj, f)
+    tmp_path.replace(path)
 
 
 def _get_cache_key(path: Path) -> tuple:
